@@ -62,7 +62,7 @@ func init() {
 			"real": {"json/ubjson/cborl Parser", "json/ubjson/cborl Decoder", "io.Copy"},
 			"stub": {"io.Reader (simkit.Reader)", "downstream visitor (counting sink)"}},
 		Assumptions: []string{"allocation is measured as the delta of /gc/heap/allocs:bytes around the call with bound 1 MiB + 64*len(input): small-object counts are flushed per span, so only allocations out of proportion are visible",
-			"termination backstop: 15 s in-process watchdog per run; events bounded by 8*len+16", "JSON top-level numbers are excluded from the truncation check (a prefix of a number is a number)"},
+			"termination backstop: in-process watchdog (25 s of CPU time without a heartbeat); events bounded by 8*len+16", "JSON top-level numbers are excluded from the truncation check (a prefix of a number is a number)"},
 	}
 	registry["C16"] = &propCfg{
 		Engine: fault.Engine{}, EngineName: "fault", Level: "fault_enumeration",
